@@ -2,7 +2,20 @@ package prog
 
 // Minimize greedily removes rules, facts, literals and transforms from g while fails keeps
 // reporting a failure. It complements rapid's shrinking (which works on the draw sequence).
-func Minimize(g Generated, fails func(Generated) bool) Generated {
+func Minimize(g Generated, fails0 func(Generated) bool) Generated {
+	// A candidate whose reference model is not finite within the caps (an arithmetic guard was removed) is
+	// never accepted and never handed to the real engine, which would not return on it.
+	fails := func(c Generated) bool {
+		base := Eval(Program{Facts: c.Extra}, nil, Options{})
+		var extra []Fact
+		for _, k := range base.Model.Keys() {
+			extra = append(extra, base.Model[k])
+		}
+		if r := Eval(c.Prog, extra, Options{MaxFacts: 3000, MaxSteps: 600000}); r.Capped {
+			return false
+		}
+		return fails0(c)
+	}
 	clone := func(g Generated) Generated {
 		n := g
 		n.Prog.Decls = append([]Decl{}, g.Prog.Decls...)
